@@ -294,11 +294,19 @@ impl<'buf, IO: Io> Connection<'_, 'buf, IO> {
                         data.outbound.retained_len(),
                         data.outbound.pending_release_len()
                     );
-                    let packet = serialize_control_packet(
+                    let packet = match serialize_control_packet(
                         &mut small_buf,
                         step.action,
                         runtime.maximum_packet_size,
-                    )?;
+                    ) {
+                        Ok(packet) => packet,
+                        Err(err) => {
+                            // A mandatory packet this connection cannot carry (queued under an
+                            // earlier, larger Maximum Packet Size): close the connection.
+                            self.handle_disconnect();
+                            return Err(err);
+                        }
+                    };
                     PreparedStep::Write(WriteStep {
                         packet: FlushedPacket::Control(step.action),
                         bytes: packet,
@@ -322,12 +330,18 @@ impl<'buf, IO: Io> Connection<'_, 'buf, IO> {
                         data.outbound.retained_len(),
                         data.outbound.pending_release_len()
                     );
-                    let packet = serialize_pubrel(
+                    let packet = match serialize_pubrel(
                         &mut small_buf,
                         step.packet_id,
                         step.reason,
                         runtime.maximum_packet_size,
-                    )?;
+                    ) {
+                        Ok(packet) => packet,
+                        Err(err) => {
+                            self.handle_disconnect();
+                            return Err(err);
+                        }
+                    };
                     PreparedStep::Write(WriteStep {
                         packet: FlushedPacket::Release(step.packet_id),
                         bytes: packet,
